@@ -52,11 +52,20 @@ package core
 //@ may-panic
 //@ opt frame off
 //@ opt opaque-callees (*Transaction).Hash,(*Pool).Add,(*Pool).ContainsKey,verifyAndPoolTx,storeBlock,addHeaders
-//@ opt stable block.Header.Index, block.Header.StateRootEnabled, block.Header.MerkleRoot, bc.config.StateRootInHeader, bc.config.SkipBlockVerification
+//@ opt stable block.Header.Index, block.Header.StateRootEnabled, block.Header.MerkleRoot, bc.config.StateRootInHeader, bc.config.SkipBlockVerification, bc.config.VerifyTransactions, block.Transactions, block.Transactions[*]
 //@ requires bc != nil && block != nil
 //@ call storeBlock requires[index] block.Index == expectedHeight
 //@ call storeBlock requires[setting] bc.config.StateRootInHeader == block.StateRootEnabled
 //@ call storeBlock requires[merkle] !bc.config.SkipBlockVerification ==> block.MerkleRoot == blk.blockMerkle(block)
+// Every transaction of a block that is stored was accepted by the per-block pool (directly
+// when it is already known to the node's pool, through full verification otherwise), unless
+// transaction verification is switched off. The meaning of the two callees' results is taken
+// for granted here (their own contracts belong to C07/C08).
+//@ spec txOK(mp *mempool.Pool, tx *transaction.Transaction) bool
+//@ call (*Pool).Add ensures[accepted] result == nil ==> txOK(arg0, arg1)
+//@ call verifyAndPoolTx ensures[accepted] result == nil ==> txOK(arg2, arg1)
+//@ call storeBlock requires[txs] !bc.config.SkipBlockVerification && bc.config.VerifyTransactions ==> forall(j, 0, len(block.Transactions), txOK(mp, block.Transactions[j]))
+//@ loop 0 invariant[accepted] bc.config.VerifyTransactions ==> forall(j, 0, $i, txOK(mp, block.Transactions[j]))
 
 //@ prop C07
 //@ import transaction github.com/nspcc-dev/neo-go/pkg/core/transaction
